@@ -36,6 +36,8 @@ pub fn tag_code(t: &Tag) -> (u64, u64) {
             "VectorSource::repeat" => 902,
             "VectorSource::first" => 903,
             "burst" => 904,
+            "VecToStream::start" => 905,
+            "VecToStream::end" => 906,
             other => 10_000 + (hash_list(other.bytes().map(|b| b as u128)) % 1_000_000) as u64,
         }
     };
@@ -214,7 +216,13 @@ pub enum Act {
     Work,
     Close(usize),
     DropOut(usize),
+    /// a control call on the block between two work() calls (Delay::set_delay): stored in `POKE`, applied by
+    /// the wrapper block at the start of its next work()
+    Poke(usize),
 }
+
+/// pending control value for the wrapper blocks (`usize::MAX` = none)
+pub static POKE: std::sync::atomic::AtomicUsize = std::sync::atomic::AtomicUsize::new(usize::MAX);
 
 pub fn show_act(a: &Act) -> String {
     match a {
@@ -223,6 +231,7 @@ pub fn show_act(a: &Act) -> String {
         Act::Work => "W".into(),
         Act::Close(j) => format!("C{j}"),
         Act::DropOut(j) => format!("X{j}"),
+        Act::Poke(k) => format!("P{k}"),
     }
 }
 
@@ -237,6 +246,17 @@ pub fn request(name: &str, params: &[u64], rig: &Rig, ins: &[InSpec], acts: &[Ac
             s += &format!(" ; L {}", rig.ins[j].cap());
             for v in d {
                 s += &format!(" {v}");
+            }
+            continue;
+        }
+        if rig.ins[j].cap() == PKT_CAP {
+            // packet input: the packet lengths are part of the input
+            s += &format!(" ; P {} {} {} {} {}", rig.ins[j].cap(), i.len, i.seed, i.m, i.pkts.len());
+            for l in &i.pkts {
+                s += &format!(" {l}");
+            }
+            for t in &i.tbl {
+                s += &format!(" {t}");
             }
             continue;
         }
@@ -435,6 +455,9 @@ pub fn run_case_full(mut rig: Rig, ins: &[InSpec], acts: &[Act], adaptive_flush:
                 if j < rig.outs.len() {
                     rig.outs[j].drop_reader();
                 }
+            }
+            Act::Poke(k) => {
+                POKE.store(k, std::sync::atomic::Ordering::SeqCst);
             }
             Act::Work => {
                 if dead || errored {
